@@ -10,15 +10,15 @@ SPEC = dict(
     rule='for every tree shape reachable through the library with <= N nodes (AVL N=15 quick/22 thorough; red-black N=12/17) and for random trees up '
          'to 4096 nodes: the six foreach macros are run and compared by node address with a recursive traversal over child links; next, prev, '
          'pre_next, pre_prev, post_next, post_prev are called on EVERY node and compared with the successor in the corresponding order (null at '
-         'the end); head/tail/post_head/post_tail; tear-down in three variants (complete; `next` reset to null at a random step; interrupted '
-         'after k steps) with each node free()d the moment it is handed out, children-before-parents and reachable-set == not-yet-handed-out '
+         'the end); head/tail/post_head/post_tail; tear-down in four variants (complete; `next` reset to null at a random step; interrupted '
+         'after k steps; started from EVERY node as the documented explicit starting node) with each node free()d the moment it is handed out, children-before-parents and reachable-set == not-yet-handed-out '
          'checked after every step. A tree whose structure walker fails is skipped (that is C01/C02 territory) and counted. '
          'distinct_nontrivial = distinct canonical shapes on which all protocols were verified.',
     exhaustive={'quick': 'all reachable AVL shapes <= 15 nodes and red-black shapes <= 12 nodes, every starting node',
                 'thorough': 'all reachable AVL shapes <= 22 nodes and red-black shapes <= 17 nodes, every starting node'},
     require=['foreach', 'foreach_reverse', 'pre_foreach', 'pre_foreach_reverse', 'post_foreach', 'post_foreach_reverse',
              'next', 'pre_next', 'pre_prev', 'post_next', 'post_prev', 'prev+inverse', 'head-tail',
-             'tear-full', 'tear-reset-next', 'tear-interrupted', 'tear-steps'],
+             'tear-full', 'tear-reset-next', 'tear-interrupted', 'tear-from-explicit-node', 'tear-steps'],
     cov_files=['avl.c'], cov_funcs=r'^a_avl_(head|tail|next|prev|pre_|post_|tear)', cov_cases=120,
     assumptions=_COMMON + ['handed-out nodes are free()d immediately, so any later read is an ASan use-after-free',
                            'iterator code of avl.c and rbt.c is textually identical but separately compiled; both are executed'],
